@@ -2,14 +2,39 @@ use crate::conv::*;
 use crate::tree::*;
 use ommx::Evaluate;
 
-/// evaluate: input [function, state] -> ok [value, used ids] | err
+/// evaluate: input [function, state] -> ok [value, used ids] | err   (evaluate and evaluate_samples must agree)
 pub fn evaluate(input: &Tree) -> Result<Tree, String> {
     let xs = input.as_list()?;
     let fun = d_function(&xs[0])?;
     let st = d_state(&xs[1])?;
+    // the same function over a sample collection holding this state under two sample ids: `evaluate_samples` must give
+    // that value to both ids and report the same used ids (every stored variant, the unset oneof included)
+    let mut entry = ommx::v1::samples::SamplesEntry::default();
+    entry.state = Some(st.clone());
+    entry.ids = vec![3, 1 << 40];
+    let mut samples = ommx::v1::Samples::default();
+    samples.entries = vec![entry];
+    let sampled = fun.evaluate_samples(&samples);
     Ok(match fun.evaluate(&st) {
-        Ok((v, ids)) => ok(L(vec![f(v), e_ids(ids.iter())])),
-        Err(e) => err("evaluate", &format!("{e:#}")),
+        Ok((v, ids)) => match sampled {
+            Ok((sv, sids)) => {
+                let same = |x: Option<f64>| matches!(x, Some(w) if w.to_bits() == v.to_bits() || (w == v));
+                if !same(sv.get(3)) || !same(sv.get(1 << 40)) {
+                    err("evaluate_samples", &format!("sampled values {:?} / {:?} differ from the value {v}", sv.get(3), sv.get(1 << 40)))
+                } else if sids != ids {
+                    // report the ids of the sampled evaluation: the judge compares them with the occurring ids
+                    ok(L(vec![f(v), e_ids(sids.iter())]))
+                } else {
+                    ok(L(vec![f(v), e_ids(ids.iter())]))
+                }
+            }
+            Err(e) => err("evaluate_samples", &format!("{e:#}")),
+        },
+        Err(e) => match sampled {
+            Err(_) => err("evaluate", &format!("{e:#}")),
+            // the single evaluation fails but the sampled one succeeds: hand the judge a success it must reject
+            Ok((sv, sids)) => ok(L(vec![f(sv.get(3).unwrap_or(f64::NAN)), e_ids(sids.iter())])),
+        },
     })
 }
 
